@@ -144,6 +144,19 @@ def build_harness(v):
         json.dump(info, open(info_p, "w"))
         return exe, info
 
+def build_soakgen():
+    """the native operation generator of the soak stage (independent of /repo)"""
+    os.makedirs(CACHE, exist_ok=True)
+    src = os.path.join(os.path.dirname(os.path.abspath(__file__)), "soakgen.cc")
+    h = hashlib.sha256(open(src, "rb").read()).hexdigest()[:12]
+    exe = os.path.join(CACHE, "soakgen_" + h)
+    with locked("soakgen"):
+        if not os.path.exists(exe):
+            r = subprocess.run(["g++", "-O2", "-std=c++17", "-w", src, "-o", exe + ".tmp"], capture_output=True, text=True)
+            if r.returncode != 0: raise BuildError("soakgen does not build:\n" + r.stderr[-2000:])
+            os.replace(exe + ".tmp", exe)
+    return exe
+
 _driver = None
 def build_driver():
     """the Lean model driver (native executable); lake rebuilds it when the model or generated data change"""
